@@ -9,10 +9,29 @@ from faultrun import FAULT_KINDS, MUTATIONS, Scripted, ev_tokens
 
 
 class BadSerde:
+    """a deserialiser that fails the way real ones do: with whatever exception the decoding library raises"""
+
+    def __init__(self, how="RuntimeError"):
+        self.how = how
+
     def serialize(self, key, value):
         return value, 0
 
     def deserialize(self, key, value, flags):
+        import json
+        import pickle
+        if self.how == "TypeError":
+            return dict(**{1: 2})                      # "keywords must be strings"
+        if self.how == "ValueError":
+            return json.loads("{not json")
+        if self.how == "KeyError":
+            return {}["schema_version"]
+        if self.how == "UnicodeDecodeError":
+            return b"\xff\xfe".decode("utf8")
+        if self.how == "UnpicklingError":
+            return pickle.loads(b"garbage")
+        if self.how == "AttributeError":
+            return None.field
         raise RuntimeError("cannot deserialize")
 
 
@@ -83,7 +102,8 @@ def main(argv):
             plans.append({"recv_fault": (pos, kind), "chunk": "bytes" if pos % 2 else "rand"})
     for m in MUTATIONS[1:]:
         plans.append({"mutation": m})
-    plans.append({"bad_serde": True})
+    for how in ("RuntimeError", "TypeError", "ValueError", "KeyError", "UnicodeDecodeError", "UnpicklingError", "AttributeError"):
+        plans.append({"bad_serde": how})
     model_lines, model_meta = [], []
     n = 0
     for cls in ("Client", "Pooled", "Hash", "HashPooled"):
@@ -99,7 +119,7 @@ def main(argv):
             for plan in plans:
                 for present in (True, False):
                     S = Scripted(rng)
-                    obj = build(cls, S, classes, serde=BadSerde() if plan.get("bad_serde") else None)
+                    obj = build(cls, S, classes, serde=BadSerde(plan["bad_serde"]) if plan.get("bad_serde") else None)
                     if present:
                         S.begin_call(0, {})
                         try:
@@ -155,6 +175,80 @@ def main(argv):
                         ctx.violation("client not usable after an ignored failure", dict(case, after=repr(e)[:80]), tags=tags)
                     if S.world.foreign_reads:
                         ctx.violation("after an ignored failure a later call read bytes of an earlier call", case, tags=tags)
+    # ---- an outage that lasts: every read during it is a miss, whatever the failover bookkeeping does as time passes (retry windows, the server
+    #      declared dead, dead_timeout elapsing while it is still down), and reads work again once the server is back ---------------------------
+    import pymemcache.client.hash as hash_mod
+    import pymemcache.pool as pool_mod
+    clock = [5000.0]
+    fake_time = type("T", (), {"time": staticmethod(lambda: clock[0])})
+    real_ht, real_pt = hash_mod.time, pool_mod.time
+    hash_mod.time = pool_mod.time = fake_time
+    try:
+        for cls, kw in (("Client", {}), ("Pooled", {}), ("Hash", {"retry_attempts": 0}), ("Hash", {"retry_attempts": 2}), ("Hash", {}), ("HashPooled", {"retry_attempts": 1}),
+                        ("Hash2", {"retry_attempts": 0}), ("Hash2", {"retry_attempts": 2})):
+            for name, inv in reads(cls):
+                for down_kind in ("refused", "timeout"):
+                    S = Scripted(rng)
+                    Client_, Pooled_, Hash_ = classes
+                    base = {"socket_module": S.sm, "ignore_exc": True}
+                    if cls == "Client":
+                        obj = Client_(("h", 1), **base)
+                    elif cls == "Pooled":
+                        obj = Pooled_(("h", 1), max_pool_size=2, **base)
+                    else:
+                        hk = dict(retry_timeout=5, dead_timeout=60, **kw)
+                        srvs = [("h", 1)] if cls != "Hash2" else [("h", 1), ("h", 2)]
+                        obj = Hash_(srvs, use_pooling=(cls == "HashPooled"), **hk, **base)
+                    S.begin_call(0, {})
+                    try:
+                        miss = inv(obj)
+                    except Exception as e:
+                        miss = e
+                    case0 = {"class": cls, "options": kw, "method": name, "outage": down_kind}
+                    ctx.case(("outage", cls, repr(kw), name, down_kind))
+                    ctx.count("lasting-outages")
+                    ok = True
+                    t0 = clock[0]
+                    for step, dt_ in enumerate((0, 1, 4, 2, 30, 31, 1, 61, 1, 200, 0)):
+                        clock[0] += dt_
+                        # every connection attempt of this call fails
+                        S.begin_call(10 + step, {})
+                        S.world.arm({("connect", k_): __import__("fakesock").mk_exc(down_kind) for k_ in range(8)})
+                        for o_ in ([obj] if cls in ("Client",) else []):
+                            pass
+                        try:
+                            if cls == "Client" and obj.sock is not None:
+                                obj.close()
+                            if cls == "Pooled":
+                                obj.close()
+                            if cls.startswith("Hash"):
+                                for c_ in obj.clients.values():
+                                    c_.close()
+                            got = inv(obj)
+                        except Exception as e:
+                            got = e
+                        if isinstance(got, Exception) or canon(got) != canon(miss):
+                            ctx.violation("a read during a lasting outage " + ("raised although ignore_exc is set" if isinstance(got, Exception) else "did not return the miss value"),
+                                          dict(case0, seconds_into_outage=clock[0] - t0, step=step, got=canon(got)[:100], miss=canon(miss)[:80]),
+                                          tags=["class:" + cls, "method:" + name.split("-")[0], "outage"] + (["raised"] if isinstance(got, Exception) else ["shape"]))
+                            ok = False
+                            break
+                    if not ok:
+                        continue
+                    # the server is back: after the dead period the object serves reads again
+                    S.world.arm({})
+                    for dt_ in (0, 61, 61, 1):
+                        clock[0] += dt_
+                        S.begin_call(99, {})
+                        try:
+                            got = obj.get("zzz", default=DEFAULT)
+                        except Exception as e:
+                            got = e
+                        if got is not DEFAULT:
+                            ctx.violation("client not usable after a lasting outage ended", dict(case0, after=canon(got)[:100]), tags=["class:" + cls, "outage"])
+                            break
+    finally:
+        hash_mod.time, pool_mod.time = real_ht, real_pt
     # model comparison through dedicated runs (records the events before the follow-up call)
     lines, metas = [], []
     cdescs = [("get", {"op": "get", "k": "a"}, lambda o: o.get("a", default=DEFAULT)), ("gets", {"op": "gets", "k": "a"}, lambda o: o.gets("a", default=DEFAULT, cas_default=CASDEFAULT)),
